@@ -7,6 +7,11 @@ import (
 	"mltwist/pkg/model"
 )
 
+// maxProgSize is the biggest in-memory size of a single program section
+// accepted. The whole section is materialized in memory, so a corrupted (or
+// malicious) header must not make us allocate an arbitrary amount of memory.
+const maxProgSize = 1 << 30
+
 type Parser struct {
 	f *elf.File
 }
@@ -61,6 +66,11 @@ func (p *Parser) Memory() (*Memory, error) {
 			return nil, fmt.Errorf(
 				"program section in memory less then in file: %d < %d",
 				p.Memsz, p.Filesz)
+		}
+		if p.Memsz > maxProgSize {
+			return nil, fmt.Errorf(
+				"program section in memory is too big: %d > %d",
+				p.Memsz, uint64(maxProgSize))
 		}
 
 		data, err := io.ReadAll(p.Open())
